@@ -14,6 +14,11 @@ pub const ARENA_BASE: usize = 0x6000_0000_0000;
 pub const SLOT_BITS: usize = 30; // 1 GiB per slot
 pub const NUM_SLOTS: usize = 4096;
 pub const ARENA_END: usize = ARENA_BASE + (NUM_SLOTS << SLOT_BITS);
+/// a second range of a few very large slots for the shipped-capacity scenarios
+pub const BIG_BASE: usize = ARENA_END;
+pub const BIG_SLOT_BITS: usize = 34; // 16 GiB per slot
+pub const NUM_BIG_SLOTS: usize = 64;
+pub const BIG_END: usize = BIG_BASE + (NUM_BIG_SLOTS << BIG_SLOT_BITS);
 
 pub struct SimAlloc;
 
@@ -40,12 +45,12 @@ thread_local! {
     }) };
 }
 
-static BUSY: [AtomicU64; NUM_SLOTS / 64] = [const { AtomicU64::new(0) }; NUM_SLOTS / 64];
-static MAPPED: [AtomicBool; NUM_SLOTS] = [const { AtomicBool::new(false) }; NUM_SLOTS];
+static BUSY: [AtomicU64; (NUM_SLOTS + NUM_BIG_SLOTS) / 64] = [const { AtomicU64::new(0) }; (NUM_SLOTS + NUM_BIG_SLOTS) / 64];
+static MAPPED: [AtomicBool; NUM_SLOTS + NUM_BIG_SLOTS] = [const { AtomicBool::new(false) }; NUM_SLOTS + NUM_BIG_SLOTS];
 
 #[inline]
 fn in_arena(p: usize) -> bool {
-    (ARENA_BASE..ARENA_END).contains(&p)
+    (ARENA_BASE..BIG_END).contains(&p)
 }
 
 unsafe impl GlobalAlloc for SimAlloc {
@@ -64,7 +69,7 @@ unsafe impl GlobalAlloc for SimAlloc {
         }
         if next > st.end {
             // arena exhausted: harness error, never a verdict
-            let msg = b"rsdd-sim: arena exhausted: a run needs more than 1 GiB\n";
+            let msg = b"rsdd-sim: arena exhausted: a run needs more than its arena slot\n";
             libc::write(2, msg.as_ptr() as *const libc::c_void, msg.len());
             // die on a signal so that the supervisor isolates the in-flight run
             libc::abort();
@@ -125,10 +130,24 @@ pub struct ArenaStats {
 /// Map the region for `slot` and arm the arena on this thread.
 /// Panics (harness error) if the fixed range is unavailable.
 pub fn arm(slot: usize, offset: usize, pad_every: u32, pad_bytes: u32) {
-    assert!(slot < NUM_SLOTS);
+    arm_sized(slot, false, offset, pad_every, pad_bytes)
+}
+
+fn slot_geometry(slot: usize, big: bool) -> (usize, usize, usize) {
+    // (base, len, index into BUSY/MAPPED)
+    if big {
+        (BIG_BASE + (slot << BIG_SLOT_BITS), 1usize << BIG_SLOT_BITS, NUM_SLOTS + slot)
+    } else {
+        (ARENA_BASE + (slot << SLOT_BITS), 1usize << SLOT_BITS, slot)
+    }
+}
+
+pub fn arm_sized(slot: usize, big: bool, offset: usize, pad_every: u32, pad_bytes: u32) {
+    assert!(slot < if big { NUM_BIG_SLOTS } else { NUM_SLOTS });
     assert!(ARENA.get().cur == 0, "arena already armed on this thread");
     // wait for the slot (affects wall time only)
-    let (w, b) = (slot / 64, slot % 64);
+    let (base, len, idx) = slot_geometry(slot, big);
+    let (w, b) = (idx / 64, idx % 64);
     loop {
         let prev = BUSY[w].fetch_or(1 << b, Ordering::Acquire);
         if prev & (1 << b) == 0 {
@@ -136,11 +155,9 @@ pub fn arm(slot: usize, offset: usize, pad_every: u32, pad_bytes: u32) {
         }
         std::thread::yield_now();
     }
-    let base = ARENA_BASE + (slot << SLOT_BITS);
-    let len = 1usize << SLOT_BITS;
     // a slot's region is mapped once per process and then only emptied
     // (MADV_DONTNEED gives back zero pages), which avoids the mmap write lock
-    if !MAPPED[slot].load(Ordering::Acquire) {
+    if !MAPPED[idx].load(Ordering::Acquire) {
         let p = unsafe {
             libc::mmap(
                 base as *mut libc::c_void,
@@ -161,7 +178,7 @@ pub fn arm(slot: usize, offset: usize, pad_every: u32, pad_bytes: u32) {
             );
             std::process::exit(2);
         }
-        MAPPED[slot].store(true, Ordering::Release);
+        MAPPED[idx].store(true, Ordering::Release);
     }
     ARENA.set(ArenaState {
         cur: base + 64 + (offset & !15),
@@ -178,9 +195,13 @@ pub fn arm(slot: usize, offset: usize, pad_every: u32, pad_bytes: u32) {
 
 /// Disarm and unmap. Nothing allocated in the arena may be touched afterwards.
 pub fn disarm(slot: usize) -> ArenaStats {
+    disarm_sized(slot, false)
+}
+
+pub fn disarm_sized(slot: usize, big: bool) -> ArenaStats {
     let st = ARENA.get();
     assert!(st.cur != 0);
-    let base = ARENA_BASE + (slot << SLOT_BITS);
+    let (base, _len, idx) = slot_geometry(slot, big);
     ARENA.set(ArenaState {
         cur: 0,
         end: 0,
@@ -198,7 +219,7 @@ pub fn disarm(slot: usize) -> ArenaStats {
             libc::madvise(base as *mut libc::c_void, used, libc::MADV_DONTNEED);
         }
     }
-    let (w, b) = (slot / 64, slot % 64);
+    let (w, b) = (idx / 64, idx % 64);
     BUSY[w].fetch_and(!(1 << b), Ordering::Release);
     ArenaStats {
         allocs: st.allocs,
